@@ -58,14 +58,33 @@ def run(chk):
     drv = V.build_driver("sysdrv", chk.bindir)
     tables = S.load_tables()
     only = os.environ.get("VERIF_SYSTEMS")
-    stats = {}
-    for t in tables:
-        if only and t["name"] not in only.split(","):
-            continue
-        if t.get("pcal_check", True):
-            check_translation(chk, t)
-        stats[t["name"]] = S.conformance(chk, "C02", t, drv, tier)
+    stats, walls = {}, {}
+    todo = [t for t in tables if not (only and t["name"] not in only.split(","))]
+    # the pairs are independent: run them side by side (largest first), each collecting into its own fork of chk
+    weight = {"raftkvs": 0, "pbkvs": 1, "bug_167": 2, "nestedcrdtimpl": 3, "proxy": 4, "loadbalancer": 5}
+    todo.sort(key=lambda t: weight.get(t["name"], 9))
+
+    def one(t):
+        import time
+        t0 = time.time()
+        sub = chk.fork()
+        try:
+            if t.get("pcal_check", True):
+                check_translation(sub, t)
+            st = S.conformance(sub, "C02", t, drv, tier)
+        except V.Inconclusive as e:
+            sub.inconclusive.append("%s: %s" % (t["name"], str(e)[:600]))
+            st = None
+        return t["name"], sub, st, time.time() - t0
+
+    import concurrent.futures
+    with concurrent.futures.ThreadPoolExecutor(max_workers=int(os.environ.get("VERIF_PAR", "5"))) as ex:
+        for name, sub, st, wall in ex.map(one, todo):
+            chk.merge(sub)
+            stats[name] = st
+            walls[name] = round(wall, 1)
     chk.notes["per_system"] = stats
+    chk.notes["per_system_wall_s"] = walls
     bound = {t["name"] for t in tables}
     allpairs = ["locksvc", "raftkvs", "pbkvs", "dqueue", "proxy", "loadbalancer", "shopcart", "gcounter", "shcounter", "nestedcrdtimpl",
                 "replicatedkv", "hello", "bug_119", "IndexingLocals", "NonDetExploration", "ProcedureSpaghetti", "PBFail4_bug125", "bug2_124", "bug_167", "ExprTests"]
